@@ -435,6 +435,103 @@ theorem C09_alias_collision_counterexample :
     let orig : List (Nat × Nat) := [(77, 2), (77, 1)]   -- AddRcpt 1 wrote (77,1), AddRcpt 2 overwrote
     translate orig 77 = 2 ∧ translate orig 77 ≠ 1 := by decide
 
+/-! ### statuses the pipeline generates itself (`setStatusAll`, `Body` error of a target without per-recipient results) -/
+
+theorem pipeGenerated_keys (rs : List PipeRcpt) :
+    (pipeGenerated rs).map (fun s => s.1) = pipeRecipients rs := by
+  simp [pipeGenerated, Function.comp_def]
+
+theorem count_map_const {β : Type} (l : List β) (c a : Nat) :
+    (l.map (fun _ => c)).count a = if c = a then l.length else 0 := by
+  induction l with
+  | nil => simp
+  | cons x rest ih =>
+    simp only [List.map_cons, List.count_cons, ih, List.length_cons]
+    by_cases h : c = a <;> simp [h]
+
+/-- **C09 (pipeline-generated statuses), rewrites that do not expand.** When the delivery fails as a whole, the
+keys of the reported results are EXACTLY the list of addresses the client supplied — same order, same
+multiplicity — whatever the modifiers rewrote them to: nothing is assumed about the effective addresses, so the
+effective→client table may be non-injective (two aliases of one mailbox) and non-total (an alias next to the
+mailbox it stands for), and the client may have sent one address several times. -/
+theorem C09_pipeline_generated_keys_eq_clients (rs : List PipeRcpt) (h : ∀ r ∈ rs, r.2.length = 1) :
+    (pipeGenerated rs).map (fun s => s.1) = rs.map (fun r => r.1) := by
+  rw [pipeGenerated_keys]
+  induction rs with
+  | nil => rfl
+  | cons r rest ih =>
+    have h1 : r.2.length = 1 := h r (by simp)
+    obtain ⟨x, hx⟩ := List.length_eq_one_iff.mp h1
+    have ih' := ih (fun q hq => h q (by simp [hq]))
+    simp only [pipeRecipients, List.flatMap_cons, List.map_cons] at ih' ⊢
+    rw [ih', hx]
+    rfl
+
+/-- **C09 (pipeline-generated statuses), 1-to-N rewrites.** In general an address is reported once per
+effective recipient of every `AddRcpt` call that supplied it — again whatever the effective addresses are. -/
+theorem C09_pipeline_generated_count (rs : List PipeRcpt) (a : Nat) :
+    ((pipeGenerated rs).map (fun s => s.1)).count a =
+      ((rs.filter (fun r => r.1 == a)).map (fun r => r.2.length)).sum := by
+  rw [pipeGenerated_keys]
+  induction rs with
+  | nil => rfl
+  | cons r rest ih =>
+    simp only [pipeRecipients, List.flatMap_cons, List.count_append, count_map_const] at ih ⊢
+    rw [ih]
+    by_cases h : r.1 = a <;> simp [h]
+
+/-- every one of them is a failure … -/
+theorem C09_pipeline_generated_all_fail (rs : List PipeRcpt) : ∀ s ∈ pipeGenerated rs, s.2 = false := by
+  intro s hs
+  simp only [pipeGenerated, List.mem_map] at hs
+  obtain ⟨_, _, rfl⟩ := hs
+  rfl
+
+/-- … and none is filed under an address the client did not supply. -/
+theorem C09_pipeline_generated_no_foreign_key (rs : List PipeRcpt) :
+    ∀ s ∈ pipeGenerated rs, ∃ r ∈ rs, r.1 = s.1 := by
+  intro s hs
+  simp only [pipeGenerated, pipeRecipients, List.mem_map, List.mem_flatMap] at hs
+  obtain ⟨c, ⟨r, hr, _, _, rfl⟩, rfl⟩ := hs
+  exact ⟨r, hr, rfl⟩
+
+/-- The effective addresses take no part: two rewritings that agree on what the client supplied and on
+the size of each expansion give the same results. -/
+theorem C09_pipeline_generated_independent_of_rewriting (rs rs' : List PipeRcpt)
+    (h : rs.map (fun r => (r.1, r.2.length)) = rs'.map (fun r => (r.1, r.2.length))) :
+    pipeGenerated rs = pipeGenerated rs' := by
+  have key : ∀ l : List PipeRcpt, pipeRecipients l =
+      (l.map (fun r => (r.1, r.2.length))).flatMap (fun q => List.replicate q.2 q.1) := by
+    intro l
+    induction l with
+    | nil => rfl
+    | cons r rest ih =>
+      simp only [pipeRecipients, List.flatMap_cons, List.map_cons] at ih ⊢
+      rw [ih]
+      congr 1
+      exact List.map_const'
+  unfold pipeGenerated
+  rw [key rs, key rs', h]
+
+/-- Why these statuses must NOT go through the reverse translation (the shape of seeded change C09-13):
+the client supplies the alias 1 and the mailbox 2 it is rewritten to. The generated statuses name 1 and 2;
+the effective recipients are 2 and 2, and translating them gives 1 twice and 2 never. Likewise for two
+aliases 1, 2 of mailbox 77. -/
+theorem C09_pipeline_generated_not_translated_counterexample :
+    let rs : List PipeRcpt := [(1, [2]), (2, [2])]
+    pipeGenerated rs = [(1, false), (2, false)] ∧
+    (rs.flatMap (fun r => r.2)).map (translate (pipeTable rs)) = [1, 1] ∧
+    pipeGenerated [(1, [77]), (2, [77])] = [(1, false), (2, false)] ∧
+    ([77, 77] : List Nat).map (translate (pipeTable [(1, [77]), (2, [77])])) = [2, 2] := by decide
+
+/-- non-vacuity: alias + mailbox + a 1-to-2 expansion + the alias sent twice: 1, 2, 3, 3, 1 — exactly once
+per effective recipient, under the addresses as supplied. -/
+example : (pipeGenerated [(1, [2]), (2, [2]), (3, [11, 2]), (1, [2])]).map (fun s => s.1) = [1, 2, 3, 3, 1] := by decide
+example : (pipeGenerated [(1, [2]), (2, [2]), (1, [2])]).map (fun s => s.1) = [1, 2, 1] ∧
+    (∀ r ∈ ([(1, [2]), (2, [2]), (1, [2])] : List PipeRcpt), r.2.length = 1) := by decide
+/-- the same list through a per-recipient target is the known finding: both results under the alias -/
+example : pipeTranslated [(1, [2]), (2, [2])] (fun _ => true) = [(1, true), (1, true)] := by decide
+
 /-! ## non-vacuity -/
 def demoTx : Tx := { rcpts := [⟨1, 0, false, false, true, false⟩, ⟨2, 0, true, true, true, false⟩, ⟨3, 1, true, false, true, false⟩, ⟨4, 1, false, false, false, false⟩],
                      dataFail := fun d => d == 1 }
